@@ -608,7 +608,8 @@ class VClock:
         self.sleeps.append(dt)
         if dt < 0:
             raise ValueError("sleep length must be non-negative")
-        self.advance(dt)
+        # a sleep may return late (signal handler, SIGSTOP, a loaded machine): `oversleep` seconds late
+        self.advance(dt + getattr(self, "oversleep", 0.0))
 
 
 class TimeProxy:
